@@ -7,12 +7,13 @@ import ClaripyProofs.Lemmas.VSA.SextSound
 import ClaripyProofs.Lemmas.VSA.AndXor
 import ClaripyProofs.Lemmas.VSA.ConcatSound
 import ClaripyProofs.Lemmas.VSA.AshrSound
+import ClaripyProofs.Lemmas.VSA.MeetFinal
 /-!
 The structural soundness theorem of `convBV`/`convB` with the *proved* interval operations discharged:
 `add, sub, neg, not, and, or, xor, concat, zero_extend, sign_extend, extract, udiv, shl, lshr, ashr, union (If), ULT/ULE/UGT/UGE,
 SLT/SLE/SGT/SGE`.
 The induction also carries constructor-normal form (`Nrm`), which the signed orderings need.  What is left as a hypothesis
-(`OpsRest`) is consulted only at nodes that use one of the remaining operations, so ASTs inside the proved fragment get
+(`OpsRest`) is consulted only at nodes that use one of the remaining operations (`mul`, `urem`), so ASTs inside the proved fragment get
 an unconditional theorem.  The ASTs considered here have a defined value at every node (no division by zero anywhere,
 also not in a branch that is not taken): the proved operations are closed on *non-empty* intervals, and non-emptiness of
 the operands is obtained from the concrete values of the sub-expressions.
@@ -36,8 +37,6 @@ structure OpsRest : Prop where
   bin : ∀ (op : BinOp) (a b r : SI) (o o' : Orders), restBin op = true → a.WF → b.WF → a.bits = b.bits →
     applyBin op a b o = .ok (r, o') →
     ((r.WF ∧ r.bits = a.bits) ∧ Nrm r) ∧ ∀ x y v, a.mem x → b.mem y → concBin op a.bits x y = some v → r.mem v
-  meet : ∀ (a b r : SI) (x : Nat), a.WF → b.WF → a.bits = b.bits → a.intersection b = .ok r → a.mem x → b.mem x →
-    r.bottom = false
 
 mutual
 /-- does the AST use an operation whose interval transfer function is not proved? -/
@@ -55,11 +54,98 @@ def usesRestBV : BV → Bool
   | .ite c a b => usesRestB c || usesRestBV a || usesRestBV b
 def usesRestB : BExp → Bool
   | .lit _ => false
-  | .cmp op a b => restCmp op || usesRestBV a || usesRestBV b
+  | .cmp _ a b => usesRestBV a || usesRestBV b
   | .not c => usesRestB c
   | .and c d => usesRestB c || usesRestB d
   | .or c d => usesRestB c || usesRestB d
   | .ite c a b => usesRestB c || usesRestB a || usesRestB b
+end
+
+mutual
+/-- the abstract operands of every `==` / `!=` node are aligned (their upper bounds are members): the guard under which
+the meet, hence `eq`, is sound (`meet_sound`); evaluated along the same order stream as `convBV` -/
+def alBV (anno : Nat → SI) : BV → Orders → Prop
+  | .var _ _, _ => True
+  | .free _ _, _ => True
+  | .const _ _, _ => True
+  | .bin _ a b, o => alBV anno a o ∧ ∀ p1, convBV anno a o = .ok p1 → alBV anno b p1.2
+  | .neg a, o => alBV anno a o
+  | .not a, o => alBV anno a o
+  | .zext _ a, o => alBV anno a o
+  | .sext _ a, o => alBV anno a o
+  | .extract _ _ a, o => alBV anno a o
+  | .concat a b, o => alBV anno a o ∧ ∀ p1, convBV anno a o = .ok p1 → alBV anno b p1.2
+  | .ite c a b, o => alB anno c o ∧ ∀ pc, convB anno c o = .ok pc →
+      (alBV anno a pc.2 ∧ ∀ p1, convBV anno a pc.2 = .ok p1 → alBV anno b p1.2)
+def alB (anno : Nat → SI) : BExp → Orders → Prop
+  | .lit _, _ => True
+  | .cmp op a b, o => alBV anno a o ∧ ∀ p1, convBV anno a o = .ok p1 →
+      (alBV anno b p1.2 ∧ (restCmp op = true → ∀ p2, convBV anno b p1.2 = .ok p2 → p1.1.si.Aligned ∧ p2.1.si.Aligned))
+  | .not c, o => alB anno c o
+  | .and c d, o => alB anno c o ∧ ∀ p, convB anno c o = .ok p → alB anno d p.2
+  | .or c d, o => alB anno c o ∧ ∀ p, convB anno c o = .ok p → alB anno d p.2
+  | .ite c a b, o => alB anno c o ∧ ∀ pc, convB anno c o = .ok pc →
+      (alB anno a pc.2 ∧ ∀ p, convB anno a pc.2 = .ok p → alB anno b p.2)
+end
+
+mutual
+/-- does the AST contain `==` or `!=`? -/
+def usesEqBV : BV → Bool
+  | .var _ _ => false
+  | .free _ _ => false
+  | .const _ _ => false
+  | .bin _ a b => usesEqBV a || usesEqBV b
+  | .neg a => usesEqBV a
+  | .not a => usesEqBV a
+  | .zext _ a => usesEqBV a
+  | .sext _ a => usesEqBV a
+  | .extract _ _ a => usesEqBV a
+  | .concat a b => usesEqBV a || usesEqBV b
+  | .ite c a b => usesEqB c || usesEqBV a || usesEqBV b
+def usesEqB : BExp → Bool
+  | .lit _ => false
+  | .cmp op a b => restCmp op || usesEqBV a || usesEqBV b
+  | .not c => usesEqB c
+  | .and c d => usesEqB c || usesEqB d
+  | .or c d => usesEqB c || usesEqB d
+  | .ite c a b => usesEqB c || usesEqB a || usesEqB b
+end
+
+mutual
+/-- without `==` / `!=` the alignment guard is void -/
+theorem alBV_of_noEq (anno : Nat → SI) : ∀ (e : BV) (o : Orders), usesEqBV e = false → alBV anno e o
+  | .var _ _, _, _ => trivial
+  | .free _ _, _, _ => trivial
+  | .const _ _, _, _ => trivial
+  | .bin _ a b, o, h => by
+    simp only [usesEqBV, Bool.or_eq_false_iff] at h
+    exact ⟨alBV_of_noEq anno a o h.1, fun p1 _ => alBV_of_noEq anno b p1.2 h.2⟩
+  | .neg a, o, h => by simp only [usesEqBV] at h; exact alBV_of_noEq anno a o h
+  | .not a, o, h => by simp only [usesEqBV] at h; exact alBV_of_noEq anno a o h
+  | .zext _ a, o, h => by simp only [usesEqBV] at h; exact alBV_of_noEq anno a o h
+  | .sext _ a, o, h => by simp only [usesEqBV] at h; exact alBV_of_noEq anno a o h
+  | .extract _ _ a, o, h => by simp only [usesEqBV] at h; exact alBV_of_noEq anno a o h
+  | .concat a b, o, h => by
+    simp only [usesEqBV, Bool.or_eq_false_iff] at h
+    exact ⟨alBV_of_noEq anno a o h.1, fun p1 _ => alBV_of_noEq anno b p1.2 h.2⟩
+  | .ite c a b, o, h => by
+    simp only [usesEqBV, Bool.or_eq_false_iff] at h
+    exact ⟨alB_of_noEq anno c o h.1.1, fun pc _ => ⟨alBV_of_noEq anno a pc.2 h.1.2, fun p1 _ => alBV_of_noEq anno b p1.2 h.2⟩⟩
+theorem alB_of_noEq (anno : Nat → SI) : ∀ (c : BExp) (o : Orders), usesEqB c = false → alB anno c o
+  | .lit _, _, _ => trivial
+  | .cmp op a b, o, h => by
+    simp only [usesEqB, Bool.or_eq_false_iff] at h
+    exact ⟨alBV_of_noEq anno a o h.1.2, fun p1 _ => ⟨alBV_of_noEq anno b p1.2 h.2, fun hr => by rw [h.1.1] at hr; cases hr⟩⟩
+  | .not c, o, h => by simp only [usesEqB] at h; exact alB_of_noEq anno c o h
+  | .and c d, o, h => by
+    simp only [usesEqB, Bool.or_eq_false_iff] at h
+    exact ⟨alB_of_noEq anno c o h.1, fun p _ => alB_of_noEq anno d p.2 h.2⟩
+  | .or c d, o, h => by
+    simp only [usesEqB, Bool.or_eq_false_iff] at h
+    exact ⟨alB_of_noEq anno c o h.1, fun p _ => alB_of_noEq anno d p.2 h.2⟩
+  | .ite c a b, o, h => by
+    simp only [usesEqB, Bool.or_eq_false_iff] at h
+    exact ⟨alB_of_noEq anno c o h.1.1, fun pc _ => ⟨alB_of_noEq anno a pc.2 h.1.2, fun p _ => alB_of_noEq anno b p.2 h.2⟩⟩
 end
 
 mutual
@@ -403,9 +489,9 @@ mutual
 /-- soundness of `convBV` with the proved operations discharged -/
 theorem convBV_rest_good (anno : Nat → SI) (env : Nat → Nat)
     (hctx : ∀ i, (anno i).WF ∧ (anno i).mem (env i)) (hnrm : ∀ i, Nrm (anno i)) :
-    ∀ (e : BV) (o : Orders) (av : AV) (o' : Orders), (usesRestBV e = true → OpsRest) → DefBV env e → WTBV anno env e →
-      convBV anno e o = .ok (av, o') → GoodBV env e av ∧ Nrm av.si
-  | .var i w, o, av, o', _, _, hwt, h => by
+    ∀ (e : BV) (o : Orders) (av : AV) (o' : Orders), (usesRestBV e = true → OpsRest) → alBV anno e o → DefBV env e →
+      WTBV anno env e → convBV anno e o = .ok (av, o') → GoodBV env e av ∧ Nrm av.si
+  | .var i w, o, av, o', _, _, _, hwt, h => by
     simp only [convBV] at h
     have := pure_ok _ _ h
     cases this
@@ -415,7 +501,7 @@ theorem convBV_rest_good (anno : Nat → SI) (env : Nat → Nat)
     simp only [evalBV] at hv
     cases hv
     exact ⟨(hctx i).2, fun j hj => by cases hj; rfl⟩
-  | .free i w, o, av, o', _, _, hwt, h => by
+  | .free i w, o, av, o', _, _, _, hwt, h => by
     simp only [convBV] at h
     have := pure_ok _ _ h
     cases this
@@ -425,7 +511,7 @@ theorem convBV_rest_good (anno : Nat → SI) (env : Nat → Nat)
     simp only [evalBV] at hv
     cases hv
     exact ⟨(mem_top w _).2 hwt.2, fun j hj => by cases hj; rfl⟩
-  | .const c w, o, av, o', _, _, hwt, h => by
+  | .const c w, o, av, o', _, _, _, hwt, h => by
     simp only [convBV] at h
     have := pure_ok _ _ h
     cases this
@@ -435,7 +521,7 @@ theorem convBV_rest_good (anno : Nat → SI) (env : Nat → Nat)
     simp only [evalBV] at hv
     cases hv
     exact ⟨const_mem c w hwt.2, fun j hj => by cases hj⟩
-  | .bin op a b, o, av, o', R, hdef, hwt, h => by
+  | .bin op a b, o, av, o', R, hal, hdef, hwt, h => by
     simp only [convBV] at h
     obtain ⟨p1, h1, h⟩ := bind_ok _ _ _ h
     obtain ⟨p2, h2, h⟩ := bind_ok _ _ _ h
@@ -444,8 +530,8 @@ theorem convBV_rest_good (anno : Nat → SI) (env : Nat → Nat)
     cases this
     have Ra : usesRestBV a = true → OpsRest := fun hh => R (by simp [usesRestBV, hh])
     have Rb : usesRestBV b = true → OpsRest := fun hh => R (by simp [usesRestBV, hh])
-    obtain ⟨⟨⟨wa, ba⟩, ma⟩, na⟩ := convBV_rest_good anno env hctx hnrm a o p1.1 p1.2 Ra hdef.1 hwt.1 h1
-    obtain ⟨⟨⟨wb, bb⟩, mb⟩, nb⟩ := convBV_rest_good anno env hctx hnrm b p1.2 p2.1 p2.2 Rb hdef.2.1 hwt.2.1 h2
+    obtain ⟨⟨⟨wa, ba⟩, ma⟩, na⟩ := convBV_rest_good anno env hctx hnrm a o p1.1 p1.2 Ra hal.1 hdef.1 hwt.1 h1
+    obtain ⟨⟨⟨wb, bb⟩, mb⟩, nb⟩ := convBV_rest_good anno env hctx hnrm b p1.2 p2.1 p2.2 Rb (hal.2 p1 h1) hdef.2.1 hwt.2.1 h2
     have hbits : p1.1.si.bits = p2.1.si.bits := by rw [ba, bb]; exact hwt.2.2
     obtain ⟨x0, hx0⟩ := defBV_some env a hdef.1
     obtain ⟨y0, hy0⟩ := defBV_some env b hdef.2.1
@@ -465,13 +551,13 @@ theorem convBV_rest_good (anno : Nat → SI) (env : Nat → Nat)
     obtain ⟨x, hx, hv⟩ := obind_some _ _ _ hv
     obtain ⟨y, hy, hv⟩ := obind_some _ _ _ hv
     refine ⟨mr x y v (ma x hx).1 (mb y hy).1 (by rw [ba]; exact hv), fun j hj => by cases hj⟩
-  | .neg a, o, av, o', R, hdef, hwt, h => by
+  | .neg a, o, av, o', R, hal, hdef, hwt, h => by
     simp only [convBV] at h
     obtain ⟨p1, h1, h⟩ := bind_ok _ _ _ h
     have := pure_ok _ _ h
     cases this
     have Ra : usesRestBV a = true → OpsRest := fun hh => R (by simp [usesRestBV, hh])
-    obtain ⟨⟨⟨wa, ba⟩, ma⟩, na⟩ := convBV_rest_good anno env hctx hnrm a o p1.1 p1.2 Ra hdef hwt h1
+    obtain ⟨⟨⟨wa, ba⟩, ma⟩, na⟩ := convBV_rest_good anno env hctx hnrm a o p1.1 p1.2 Ra hal hdef hwt h1
     obtain ⟨wr, br⟩ := neg_WF p1.1.si wa
     refine ⟨?_, neg_nrm p1.1.si wa⟩
     refine ⟨⟨wr, by rw [br, ba]; rfl⟩, ?_⟩
@@ -484,14 +570,14 @@ theorem convBV_rest_good (anno : Nat → SI) (env : Nat → Nat)
     unfold Conc.neg
     rw [Nat.mod_eq_of_lt (ma x hx).1.2.1]
     exact neg_sound p1.1.si x wa (ma x hx).1
-  | .not a, o, av, o', R, hdef, hwt, h => by
+  | .not a, o, av, o', R, hal, hdef, hwt, h => by
     simp only [convBV] at h
     obtain ⟨p1, h1, h⟩ := bind_ok _ _ _ h
     obtain ⟨r, h2, h⟩ := bind_ok _ _ _ h
     have := pure_ok _ _ h
     cases this
     have Ra : usesRestBV a = true → OpsRest := fun hh => R (by simp [usesRestBV, hh])
-    obtain ⟨⟨⟨wa, ba⟩, ma⟩, na⟩ := convBV_rest_good anno env hctx hnrm a o p1.1 p1.2 Ra hdef hwt h1
+    obtain ⟨⟨⟨wa, ba⟩, ma⟩, na⟩ := convBV_rest_good anno env hctx hnrm a o p1.1 p1.2 Ra hal hdef hwt h1
     obtain ⟨x0, hx0⟩ := defBV_some env a hdef
     obtain ⟨⟨wr, br⟩, mr⟩ := not_sound p1.1.si r wa (ma x0 hx0).1.1 h2
     refine ⟨?_, not_nrm p1.1.si r wr h2⟩
@@ -505,14 +591,14 @@ theorem convBV_rest_good (anno : Nat → SI) (env : Nat → Nat)
     unfold Conc.not
     rw [Nat.mod_eq_of_lt (ma x hx).1.2.1]
     exact mr x (ma x hx).1
-  | .zext k a, o, av, o', R, hdef, hwt, h => by
+  | .zext k a, o, av, o', R, hal, hdef, hwt, h => by
     simp only [convBV] at h
     obtain ⟨p1, h1, h⟩ := bind_ok _ _ _ h
     obtain ⟨r, h2, h⟩ := bind_ok _ _ _ h
     have := pure_ok _ _ h
     cases this
     have Ra : usesRestBV a = true → OpsRest := fun hh => R (by simp [usesRestBV, hh])
-    obtain ⟨⟨⟨wa, ba⟩, ma⟩, na⟩ := convBV_rest_good anno env hctx hnrm a o p1.1 p1.2 Ra hdef hwt h1
+    obtain ⟨⟨⟨wa, ba⟩, ma⟩, na⟩ := convBV_rest_good anno env hctx hnrm a o p1.1 p1.2 Ra hal hdef hwt h1
     obtain ⟨x0, hx0⟩ := defBV_some env a hdef
     obtain ⟨⟨wr, br⟩, mr⟩ := zext_sound p1.1.si r (k + p1.1.si.bits) wa (ma x0 hx0).1.1 (by omega) h2
     refine ⟨?_, zeroExtend_nrm p1.1.si r (k + p1.1.si.bits) wa (ma x0 hx0).1.1 na (by omega) wr h2⟩
@@ -525,7 +611,7 @@ theorem convBV_rest_good (anno : Nat → SI) (env : Nat → Nat)
     split at hj
     · exact (ma v hv).2 j hj
     · cases hj
-  | .sext k a, o, av, o', R, hdef, hwt, h => by
+  | .sext k a, o, av, o', R, hal, hdef, hwt, h => by
     simp only [convBV] at h
     obtain ⟨p1, h1, h⟩ := bind_ok _ _ _ h
     obtain ⟨r, h2, h⟩ := bind_ok _ _ _ h
@@ -533,7 +619,7 @@ theorem convBV_rest_good (anno : Nat → SI) (env : Nat → Nat)
     have := pure_ok _ _ h
     cases this
     have Ra : usesRestBV a = true → OpsRest := fun hh => R (by simp [usesRestBV, hh])
-    obtain ⟨⟨⟨wa, ba⟩, ma⟩, na⟩ := convBV_rest_good anno env hctx hnrm a o p1.1 p1.2 Ra hdef hwt h1
+    obtain ⟨⟨⟨wa, ba⟩, ma⟩, na⟩ := convBV_rest_good anno env hctx hnrm a o p1.1 p1.2 Ra hal hdef hwt h1
     obtain ⟨x0, hx0⟩ := defBV_some env a hdef
     obtain ⟨⟨wr, br⟩, mr⟩ := sext_sound p1.1.si r (k + p1.1.si.bits) wa (ma x0 hx0).1.1 na (by omega) h2
     refine ⟨?_, sext_nrm p1.1.si r (k + p1.1.si.bits) wa (ma x0 hx0).1.1 na (by omega) wr h2⟩
@@ -552,14 +638,14 @@ theorem convBV_rest_good (anno : Nat → SI) (env : Nat → Nat)
       have hsame := sextKeeps_sound p1.1.si k x wa h3 (ma x hx).1
       rw [← ba, hsame]
       exact (ma x hx).2 j hj
-  | .extract hi lo a, o, av, o', R, hdef, hwt, h => by
+  | .extract hi lo a, o, av, o', R, hal, hdef, hwt, h => by
     simp only [convBV] at h
     obtain ⟨p1, h1, h⟩ := bind_ok _ _ _ h
     obtain ⟨r, h2, h⟩ := bind_ok _ _ _ h
     have := pure_ok _ _ h
     cases this
     have Ra : usesRestBV a = true → OpsRest := fun hh => R (by simp [usesRestBV, hh])
-    obtain ⟨⟨⟨wa, ba⟩, ma⟩, na⟩ := convBV_rest_good anno env hctx hnrm a o p1.1 p1.2 Ra hdef hwt.1 h1
+    obtain ⟨⟨⟨wa, ba⟩, ma⟩, na⟩ := convBV_rest_good anno env hctx hnrm a o p1.1 p1.2 Ra hal hdef hwt.1 h1
     obtain ⟨x0, hx0⟩ := defBV_some env a hdef
     obtain ⟨⟨wr, br⟩, mr⟩ := extract_sound p1.1.si r hi lo wa (ma x0 hx0).1.1 hwt.2.1 (by rw [ba]; exact hwt.2.2) h2
     refine ⟨?_, extract_nrm p1.1.si r hi lo wr h2⟩
@@ -583,7 +669,7 @@ theorem convBV_rest_good (anno : Nat → SI) (env : Nat → Nat)
       rw [this]
       exact (ma x hx).2 j hj
     · cases hj
-  | .concat a b, o, av, o', R, hdef, hwt, h => by
+  | .concat a b, o, av, o', R, hal, hdef, hwt, h => by
     simp only [convBV] at h
     obtain ⟨p1, h1, h⟩ := bind_ok _ _ _ h
     obtain ⟨p2, h2, h⟩ := bind_ok _ _ _ h
@@ -592,8 +678,8 @@ theorem convBV_rest_good (anno : Nat → SI) (env : Nat → Nat)
     cases this
     have Ra : usesRestBV a = true → OpsRest := fun hh => R (by simp [usesRestBV, hh])
     have Rb : usesRestBV b = true → OpsRest := fun hh => R (by simp [usesRestBV, hh])
-    obtain ⟨⟨⟨wa, ba⟩, ma⟩, na⟩ := convBV_rest_good anno env hctx hnrm a o p1.1 p1.2 Ra hdef.1 hwt.1 h1
-    obtain ⟨⟨⟨wb, bb⟩, mb⟩, nb⟩ := convBV_rest_good anno env hctx hnrm b p1.2 p2.1 p2.2 Rb hdef.2 hwt.2 h2
+    obtain ⟨⟨⟨wa, ba⟩, ma⟩, na⟩ := convBV_rest_good anno env hctx hnrm a o p1.1 p1.2 Ra hal.1 hdef.1 hwt.1 h1
+    obtain ⟨⟨⟨wb, bb⟩, mb⟩, nb⟩ := convBV_rest_good anno env hctx hnrm b p1.2 p2.1 p2.2 Rb (hal.2 p1 h1) hdef.2 hwt.2 h2
     obtain ⟨x0, hx0⟩ := defBV_some env a hdef.1
     obtain ⟨y0, hy0⟩ := defBV_some env b hdef.2
     obtain ⟨⟨⟨wr, br⟩, nr'⟩, mr⟩ := concat_sound p1.1.si p2.1.si r wa wb (ma x0 hx0).1.1 (mb y0 hy0).1.1 h3
@@ -606,7 +692,7 @@ theorem convBV_rest_good (anno : Nat → SI) (env : Nat → Nat)
     obtain ⟨y, hy, hv⟩ := obind_some _ _ _ hv
     cases hv
     exact ⟨by rw [← bb]; exact mr x y (ma x hx).1 (mb y hy).1, fun j hj => by cases hj⟩
-  | .ite c a b, o, av, o', R, hdef, hwt, h => by
+  | .ite c a b, o, av, o', R, hal, hdef, hwt, h => by
     simp only [convBV] at h
     obtain ⟨pc, hc, h⟩ := bind_ok _ _ _ h
     obtain ⟨p1, h1, h⟩ := bind_ok _ _ _ h
@@ -617,9 +703,9 @@ theorem convBV_rest_good (anno : Nat → SI) (env : Nat → Nat)
     have Rc : usesRestB c = true → OpsRest := fun hh => R (by simp [usesRestBV, hh])
     have Ra : usesRestBV a = true → OpsRest := fun hh => R (by simp [usesRestBV, hh])
     have Rb : usesRestBV b = true → OpsRest := fun hh => R (by simp [usesRestBV, hh])
-    have gc := convB_rest_good anno env hctx hnrm c o pc.1 pc.2 Rc hdef.1 hwt.1 hc
-    obtain ⟨⟨⟨wa, ba⟩, ma⟩, na⟩ := convBV_rest_good anno env hctx hnrm a pc.2 p1.1 p1.2 Ra hdef.2.1 hwt.2.1 h1
-    obtain ⟨⟨⟨wb, bb⟩, mb⟩, nb⟩ := convBV_rest_good anno env hctx hnrm b p1.2 p2.1 p2.2 Rb hdef.2.2 hwt.2.2.1 h2
+    have gc := convB_rest_good anno env hctx hnrm c o pc.1 pc.2 Rc hal.1 hdef.1 hwt.1 hc
+    obtain ⟨⟨⟨wa, ba⟩, ma⟩, na⟩ := convBV_rest_good anno env hctx hnrm a pc.2 p1.1 p1.2 Ra (hal.2 pc hc).1 hdef.2.1 hwt.2.1 h1
+    obtain ⟨⟨⟨wb, bb⟩, mb⟩, nb⟩ := convBV_rest_good anno env hctx hnrm b p1.2 p2.1 p2.2 Rb ((hal.2 pc hc).2 p1 h1) hdef.2.2 hwt.2.2.1 h2
     have hbits : p1.1.si.bits = p2.1.si.bits := by rw [ba, bb]; exact hwt.2.2.2
     unfold iteBV at h3
     by_cases hT : (!pc.1.hasTrue) = true
@@ -670,9 +756,9 @@ theorem convBV_rest_good (anno : Nat → SI) (env : Nat → Nat)
 /-- … and of `convB`. -/
 theorem convB_rest_good (anno : Nat → SI) (env : Nat → Nat)
     (hctx : ∀ i, (anno i).WF ∧ (anno i).mem (env i)) (hnrm : ∀ i, Nrm (anno i)) :
-    ∀ (c : BExp) (o : Orders) (br : BoolRes) (o' : Orders), (usesRestB c = true → OpsRest) → DefB env c → WTB anno env c →
-      convB anno c o = .ok (br, o') → GoodB env c br
-  | .lit b, o, br, o', _, _, _, h => by
+    ∀ (c : BExp) (o : Orders) (br : BoolRes) (o' : Orders), (usesRestB c = true → OpsRest) → alB anno c o → DefB env c →
+      WTB anno env c → convB anno c o = .ok (br, o') → GoodB env c br
+  | .lit b, o, br, o', _, _, _, _, h => by
     simp only [convB] at h
     have := pure_ok _ _ h
     cases this
@@ -680,7 +766,7 @@ theorem convB_rest_good (anno : Nat → SI) (env : Nat → Nat)
     simp only [evalB] at hb'
     cases hb'
     cases b <;> rfl
-  | .cmp op a b, o, br, o', R, hdef, hwt, h => by
+  | .cmp op a b, o, br, o', R, hal, hdef, hwt, h => by
     simp only [convB] at h
     obtain ⟨p1, h1, h⟩ := bind_ok _ _ _ h
     obtain ⟨p2, h2, h⟩ := bind_ok _ _ _ h
@@ -689,8 +775,8 @@ theorem convB_rest_good (anno : Nat → SI) (env : Nat → Nat)
     cases this
     have Ra : usesRestBV a = true → OpsRest := fun hh => R (by simp [usesRestB, hh])
     have Rb : usesRestBV b = true → OpsRest := fun hh => R (by simp [usesRestB, hh])
-    obtain ⟨⟨⟨wa, ba⟩, ma⟩, na⟩ := convBV_rest_good anno env hctx hnrm a o p1.1 p1.2 Ra hdef.1 hwt.1 h1
-    obtain ⟨⟨⟨wb, bb⟩, mb⟩, nb⟩ := convBV_rest_good anno env hctx hnrm b p1.2 p2.1 p2.2 Rb hdef.2 hwt.2.1 h2
+    obtain ⟨⟨⟨wa, ba⟩, ma⟩, na⟩ := convBV_rest_good anno env hctx hnrm a o p1.1 p1.2 Ra hal.1 hdef.1 hwt.1 h1
+    obtain ⟨⟨⟨wb, bb⟩, mb⟩, nb⟩ := convBV_rest_good anno env hctx hnrm b p1.2 p2.1 p2.2 Rb (hal.2 p1 h1).1 hdef.2 hwt.2.1 h2
     have hbits : p1.1.si.bits = p2.1.si.bits := by rw [ba, bb]; exact hwt.2.2
     intro bv hbv
     simp only [evalB] at hbv
@@ -700,8 +786,8 @@ theorem convB_rest_good (anno : Nat → SI) (env : Nat → Nat)
     have hmx := (ma x hx).1
     have hmy := (mb y hy).1
     by_cases hrest : restCmp op = true
-    · have H := R (by simp [usesRestB, hrest])
-      -- equality of values forced by names / singleton intervals, emptiness of the meet
+    · -- equality of values forced by names / singleton intervals, emptiness of the meet (aligned operands: `meet_sound`)
+      obtain ⟨al1, al2⟩ := (hal.2 p1 h1).2 hrest p2 h2
       have heqN : ∀ rr, eqNamed p1.1 p2.1 = .ok rr → rr.has (decide (x = y)) = true := by
         intro rr hrr
         unfold eqNamed at hrr
@@ -737,8 +823,8 @@ theorem convB_rest_good (anno : Nat → SI) (env : Nat → Nat)
               have : x ≠ y := by
                 intro hxy
                 subst hxy
-                have := H.meet p1.1.si p2.1.si m x wa wb hbits hm hmx hmy
-                rw [this] at hbot; cases hbot
+                have := (meet_sound p1.1.si.bits p1.1.si p2.1.si m ⟨wa, rfl⟩ ⟨wb, hbits.symm⟩ hmx.1 hmy.1 al1 al2 na nb hm).2 x hmx hmy
+                rw [this.1] at hbot; cases hbot
               simp [this, BoolRes.has, BoolRes.hasFalse]
             · rw [if_neg hbot]; exact has_of_m _
       by_cases he : op = .eq
@@ -761,19 +847,19 @@ theorem convB_rest_good (anno : Nat → SI) (env : Nat → Nat)
         exact scmp_sound op hs p1.1 p2.1 br wa wb hbits na nb h3 x y hmx hmy
       · have hu : op = .ult ∨ op = .ule ∨ op = .ugt ∨ op = .uge := by cases op <;> simp_all [restCmp, signedCmp]
         exact ucmp_sound op hu p1.1 p2.1 br wa wb h3 x y hmx hmy
-  | .not c, o, br, o', R, hdef, hwt, h => by
+  | .not c, o, br, o', R, hal, hdef, hwt, h => by
     simp only [convB] at h
     obtain ⟨p, h1, h⟩ := bind_ok _ _ _ h
     have := pure_ok _ _ h
     cases this
     have Rc : usesRestB c = true → OpsRest := fun hh => R (by simp [usesRestB, hh])
-    have gc := convB_rest_good anno env hctx hnrm c o p.1 p.2 Rc hdef hwt h1
+    have gc := convB_rest_good anno env hctx hnrm c o p.1 p.2 Rc hal hdef hwt h1
     intro b hb
     simp only [evalB] at hb
     obtain ⟨b0, hb0, hb⟩ := obind_some _ _ _ hb
     cases hb
     exact brNot_has _ _ (gc b0 hb0)
-  | .and c d, o, br, o', R, hdef, hwt, h => by
+  | .and c d, o, br, o', R, hal, hdef, hwt, h => by
     simp only [convB] at h
     obtain ⟨p, h1, h⟩ := bind_ok _ _ _ h
     obtain ⟨q, h2, h⟩ := bind_ok _ _ _ h
@@ -781,15 +867,15 @@ theorem convB_rest_good (anno : Nat → SI) (env : Nat → Nat)
     cases this
     have Rc : usesRestB c = true → OpsRest := fun hh => R (by simp [usesRestB, hh])
     have Rd : usesRestB d = true → OpsRest := fun hh => R (by simp [usesRestB, hh])
-    have gc := convB_rest_good anno env hctx hnrm c o p.1 p.2 Rc hdef.1 hwt.1 h1
-    have gd := convB_rest_good anno env hctx hnrm d p.2 q.1 q.2 Rd hdef.2 hwt.2 h2
+    have gc := convB_rest_good anno env hctx hnrm c o p.1 p.2 Rc hal.1 hdef.1 hwt.1 h1
+    have gd := convB_rest_good anno env hctx hnrm d p.2 q.1 q.2 Rd (hal.2 p h1) hdef.2 hwt.2 h2
     intro b hb
     simp only [evalB] at hb
     obtain ⟨b0, hb0, hb⟩ := obind_some _ _ _ hb
     obtain ⟨b1, hb1, hb⟩ := obind_some _ _ _ hb
     cases hb
     exact brAnd_has _ _ _ _ (gc b0 hb0) (gd b1 hb1)
-  | .or c d, o, br, o', R, hdef, hwt, h => by
+  | .or c d, o, br, o', R, hal, hdef, hwt, h => by
     simp only [convB] at h
     obtain ⟨p, h1, h⟩ := bind_ok _ _ _ h
     obtain ⟨q, h2, h⟩ := bind_ok _ _ _ h
@@ -797,15 +883,15 @@ theorem convB_rest_good (anno : Nat → SI) (env : Nat → Nat)
     cases this
     have Rc : usesRestB c = true → OpsRest := fun hh => R (by simp [usesRestB, hh])
     have Rd : usesRestB d = true → OpsRest := fun hh => R (by simp [usesRestB, hh])
-    have gc := convB_rest_good anno env hctx hnrm c o p.1 p.2 Rc hdef.1 hwt.1 h1
-    have gd := convB_rest_good anno env hctx hnrm d p.2 q.1 q.2 Rd hdef.2 hwt.2 h2
+    have gc := convB_rest_good anno env hctx hnrm c o p.1 p.2 Rc hal.1 hdef.1 hwt.1 h1
+    have gd := convB_rest_good anno env hctx hnrm d p.2 q.1 q.2 Rd (hal.2 p h1) hdef.2 hwt.2 h2
     intro b hb
     simp only [evalB] at hb
     obtain ⟨b0, hb0, hb⟩ := obind_some _ _ _ hb
     obtain ⟨b1, hb1, hb⟩ := obind_some _ _ _ hb
     cases hb
     exact brOr_has _ _ _ _ (gc b0 hb0) (gd b1 hb1)
-  | .ite c a b, o, br, o', R, hdef, hwt, h => by
+  | .ite c a b, o, br, o', R, hal, hdef, hwt, h => by
     simp only [convB] at h
     obtain ⟨pc, hc, h⟩ := bind_ok _ _ _ h
     obtain ⟨p, h1, h⟩ := bind_ok _ _ _ h
@@ -815,9 +901,9 @@ theorem convB_rest_good (anno : Nat → SI) (env : Nat → Nat)
     have Rc : usesRestB c = true → OpsRest := fun hh => R (by simp [usesRestB, hh])
     have Ra : usesRestB a = true → OpsRest := fun hh => R (by simp [usesRestB, hh])
     have Rb : usesRestB b = true → OpsRest := fun hh => R (by simp [usesRestB, hh])
-    have gc := convB_rest_good anno env hctx hnrm c o pc.1 pc.2 Rc hdef.1 hwt.1 hc
-    have ga := convB_rest_good anno env hctx hnrm a pc.2 p.1 p.2 Ra hdef.2.1 hwt.2.1 h1
-    have gb := convB_rest_good anno env hctx hnrm b p.2 q.1 q.2 Rb hdef.2.2 hwt.2.2 h2
+    have gc := convB_rest_good anno env hctx hnrm c o pc.1 pc.2 Rc hal.1 hdef.1 hwt.1 hc
+    have ga := convB_rest_good anno env hctx hnrm a pc.2 p.1 p.2 Ra (hal.2 pc hc).1 hdef.2.1 hwt.2.1 h1
+    have gb := convB_rest_good anno env hctx hnrm b p.2 q.1 q.2 Rb ((hal.2 pc hc).2 p h1) hdef.2.2 hwt.2.2 h2
     intro bv hbv
     simp only [evalB] at hbv
     obtain ⟨cv, hcv, hbv⟩ := obind_some _ _ _ hbv
